@@ -81,6 +81,21 @@ namespace rkverif_c06 {
       return 0.f;
     return 2.f * acos(q.r);
   }
+  // R-C06-range: the reciprocal of a determinant (size s^n) overflows where adjoint / det (size 1/s) does not
+  inline float det_of(const linear2f &m)
+  {
+    return m.vx.x * m.vy.y - m.vx.y * m.vy.x;
+  }
+  inline vec2f inverse_by_reciprocal(const linear2f &m, const vec2f &adjRow)   // must be reported
+  {
+    const float r = 1.f / det_of(m);
+    return vec2f(adjRow.x * r, adjRow.y * r);
+  }
+  inline vec2f inverse_by_division(const linear2f &m, const vec2f &adjRow)     // must not be reported
+  {
+    const float d = det_of(m);
+    return vec2f(adjRow.x / d, adjRow.y / d);
+  }
 #ifndef RKCOMMON_NO_SIMD
   inline float load_padded(const vec3fa &v)          // must be reported: vec3fa is padded, not aligned
   {
